@@ -188,10 +188,40 @@ SVersion(s, c, now) ==
 SCancel(s, c, now) ==
     LET r == CancelFn(s.p, c, AllHang, now) IN Pump([s EXCEPT !.p = r.p], FromP(r.out), <<>>, now)
 
-(* frames read from the port in one callback *)
+(***************************************************************************)
+(* Frames read from the port, each read its own callback, queued back to   *)
+(* back.  What a layer does synchronously inside data_received() - the     *)
+(* acknowledgement, the hand-over to EZSP.frame_received (registration     *)
+(* popped, future completed, callbacks run), the gateway's triage of a     *)
+(* reset code, EZSP.enter_failed_state with its close() - happens before   *)
+(* the next read is looked at; a read queued behind one that closed the    *)
+(* transport is not delivered.  What tasks do after being woken is         *)
+(* deferred behind all the reads.                                          *)
+(***************************************************************************)
+RECURSIVE SyncPump(_, _, _, _)
+SyncPump(s, todo, later, out) ==
+    IF todo = <<>> THEN [s |-> s, later |-> later, out |-> out]
+    ELSE LET x == Head(todo) rest == Tail(todo) IN
+      CASE x.o \in {"write", "cb"} -> SyncPump(s, rest, later, Append(out, x))
+        [] x.o = "up_data" ->
+             LET r == FrameSync(s.p, x.pl) IN
+             SyncPump([s EXCEPT !.p = r.p], rest \o SelectSeq(r.out, LAMBDA o : o.o = "cb"),
+                      later \o SelectSeq(r.out, LAMBDA o : o.o # "cb"), out)
+        [] x.o = "up_reset" -> LET r == Triage(s.g, x.code) IN SyncPump([s EXCEPT !.g = r.g], rest \o r.out, later, out)
+        [] x.o \in {"failed", "applost"} ->
+             IF s.reg
+             THEN SyncPump([s EXCEPT !.run = FALSE, !.open = FALSE, !.req = @ + 1], rest,
+                           IF s.open THEN Append(later, Sig("closed")) ELSE later, Append(out, Request))
+             ELSE SyncPump(s, rest, later, out)
+        [] OTHER -> SyncPump(s, rest, Append(later, x), out)
+
 SRecv(s, fs, now) ==
-    LET r == FoldLeft(LAMBDA acc, f : LET x == RecvFn(acc.h, f) IN R(x.h, acc.out \o x.out), R(s.g.h, <<>>), fs)
-    IN Pump([s EXCEPT !.g.h = r.h], FromH(r.out), <<>>, now)
+    LET r == FoldLeft(LAMBDA acc, f :
+                        IF ~(acc.s.open /\ acc.s.g.up) THEN acc          \* the transport was closed by an earlier read
+                        ELSE LET x == RecvFn(acc.s.g.h, f)
+                             IN SyncPump([acc.s EXCEPT !.g.h = x.h], FromH(x.out), acc.later, acc.out),
+                      [s |-> s, later |-> <<>>, out |-> <<>>], fs)
+    IN Pump(r.s, r.later, r.out, now)
 
 (* timers *)
 STick(s, now) == LET r == TimerFn(s.g.h) IN Pump([s EXCEPT !.g.h = r.h], FromH(r.out), <<>>, now)
